@@ -29,57 +29,111 @@ func init() {
 
 // ---------------------------------------------------------------- histories
 
-// one request on the hasher: 0 Hash, 1 HashString, 2 ToBocCustomWithHasher
-func c02HistOp(h *boc.Hasher, cell *boc.Cell, k int) (out sx.V) {
-	defer func() {
-		if r := recover(); r != nil {
-			out = sx.A("panic")
-		}
-	}()
-	switch k {
-	case 0:
-		b, err := h.Hash(cell)
-		if err != nil {
-			return sx.A("err")
-		}
-		return sx.Bytes(b)
-	case 1:
-		s, err := h.HashString(cell)
-		if err != nil {
-			return sx.A("err")
-		}
-		b, err := hex.DecodeString(s)
+// a result as the caller holds it: the very slice / string that was returned
+type c02Kept struct {
+	raw       []byte // k = 0, 2, 4: the returned slice itself, NOT a copy
+	str       string // k = 1, 5
+	isStr     bool
+	atom      string // "err" / "panic" / "badhex" when there is no value
+	scribbled bool
+}
+
+func (k *c02Kept) view() sx.V {
+	switch {
+	case k.atom != "":
+		return sx.A(k.atom)
+	case k.scribbled:
+		return sx.A("scribbled")
+	case k.isStr:
+		b, err := hex.DecodeString(k.str)
 		if err != nil {
 			return sx.A("badhex")
 		}
 		return sx.Bytes(b)
-	default:
-		b, err := cell.ToBocCustomWithHasher(h, false, false, false, 0)
-		if err != nil {
-			return sx.A("err")
-		}
-		return sx.Bytes(b)
 	}
+	return sx.Bytes(k.raw)
 }
 
-// c02.history: (dag ((k i) ...)) -> one answer per request on ONE boc.NewHasher()
+// one request: 0 Hasher.Hash, 1 Hasher.HashString, 2 ToBocCustomWithHasher,
+// 4 Cell.Hash, 5 Cell.HashString (no hasher)
+func c02HistOp(h *boc.Hasher, cell *boc.Cell, k int) (out *c02Kept) {
+	defer func() {
+		if r := recover(); r != nil {
+			out = &c02Kept{atom: "panic"}
+		}
+	}()
+	var b []byte
+	var s string
+	var err error
+	switch k {
+	case 0:
+		b, err = h.Hash(cell)
+	case 1:
+		s, err = h.HashString(cell)
+	case 2:
+		b, err = cell.ToBocCustomWithHasher(h, false, false, false, 0)
+	case 4:
+		b, err = cell.Hash()
+	default:
+		s, err = cell.HashString()
+	}
+	if err != nil {
+		return &c02Kept{atom: "err"}
+	}
+	if k == 1 || k == 5 {
+		return &c02Kept{str: s, isStr: true}
+	}
+	return &c02Kept{raw: b}
+}
+
+// runs a history and returns ((answers at the moment of each call) (the same
+// results as the caller still holds them after the whole history)).  Op 3 =
+// the caller writes into the result it holds from request i mod #requests.
+func c02RunOps(h *boc.Hasher, cells []*boc.Cell, ops []sx.V) sx.V {
+	var kept []*c02Kept
+	var now []sx.V
+	for _, op := range ops {
+		k, i := int(op.List[0].U64()), op.List[1].I()
+		if k == 3 {
+			r := &c02Kept{atom: "none"}
+			if len(kept) > 0 {
+				t := kept[i%len(kept)]
+				if t.atom == "" && !t.isStr {
+					for x := range t.raw {
+						t.raw[x] ^= 0xA5
+					}
+					t.scribbled = true
+				}
+			}
+			kept = append(kept, r)
+			now = append(now, sx.A("none"))
+			continue
+		}
+		r := c02HistOp(h, cells[i], k)
+		kept = append(kept, r)
+		now = append(now, r.view()) // sx.Bytes copies
+	}
+	var end []sx.V
+	for _, r := range kept {
+		end = append(end, r.view())
+	}
+	return sx.L(sx.L(now...), sx.L(end...))
+}
+
+// c02.history: (dag ((k i) ...)) -> ((answer per request) (kept answers at the end)) on ONE boc.NewHasher()
 func execC02History(in sx.V) sx.V {
 	dag := dagFromSx(in.List[0])
 	cells, err := buildGo(dag)
 	if err != nil {
 		return sx.A("err")
 	}
-	h := boc.NewHasher()
-	var outs []sx.V
-	for _, op := range in.List[1].List {
-		outs = append(outs, c02HistOp(h, cells[op.List[1].I()], int(op.List[0].U64())))
-	}
-	return sx.L(outs...)
+	return c02RunOps(boc.NewHasher(), cells, in.List[1].List)
 }
 
 // c02.gohistory: (dag src ((k i) ...)); src 1 = the hasher of a reused
-// tlb.Decoder; also serialisation through the hasher (k = 2).  Implementation
-// only (the oracle compares with fresh computations).
+// tlb.Decoder; also serialisation through the hasher (k = 2), the caller
+// writing into a result it holds (k = 3), Cell.Hash / Cell.HashString (4, 5).
+// Implementation only (the oracle compares with fresh computations).
 func execC02GoHistory(in sx.V) sx.V {
 	dag := dagFromSx(in.List[0])
 	cells, err := buildGo(dag)
@@ -90,11 +144,7 @@ func execC02GoHistory(in sx.V) sx.V {
 	if in.List[1].U64() == 1 {
 		h = tlb.NewDecoder().Hasher()
 	}
-	var outs []sx.V
-	for _, op := range in.List[2].List {
-		outs = append(outs, c02HistOp(h, cells[op.List[1].I()], int(op.List[0].U64())))
-	}
-	return sx.L(outs...)
+	return c02RunOps(h, cells, in.List[2].List)
 }
 
 // what a request answers on cells nobody has hashed yet, with a fresh map
@@ -128,22 +178,30 @@ func opsSx(ops [][2]int) sx.V {
 
 func c02HistoryCompare(c *Ctx, kind string, in sx.V, dag []Node, ops [][2]int, out sx.V, what string) {
 	fc, err := buildGo(dag)
-	if err != nil || out.K != sx.KL || len(out.List) != len(ops) {
+	if err != nil || out.K != sx.KL || len(out.List) != 2 || len(out.List[0].List) != len(ops) || len(out.List[1].List) != len(ops) {
 		c.Fail(kind, in, "hasher-history", what+": the history did not run")
 		return
 	}
 	memo := map[[2]int]string{}
-	for j, o := range ops {
+	fresh := func(o [2]int) string {
 		key := o
-		if key[0] == 1 {
+		switch key[0] {
+		case 1, 4, 5:
 			key[0] = 0
 		}
 		want, ok := memo[key]
 		if !ok {
-			want = c02Fresh(fc[o[1]], o[0]).String()
+			want = c02Fresh(fc[o[1]], key[0]).String()
 			memo[key] = want
 		}
-		got := out.List[j].String()
+		return want
+	}
+	for j, o := range ops {
+		if o[0] == 3 {
+			continue
+		}
+		want := fresh(o)
+		got := out.List[0].List[j].String()
 		if got == want {
 			continue
 		}
@@ -153,6 +211,20 @@ func c02HistoryCompare(c *Ctx, kind string, in sx.V, dag []Node, ops [][2]int, o
 			c.Fail(kind, in, "hasher-history", fmt.Sprintf("%s: request %d (op %d on cell %d) answers %s; a fresh computation answers %s", what, j, o[0], o[1], trunc(got, 80), trunc(want, 80)))
 		}
 		return
+	}
+	// results are values: what the caller still holds after the whole history
+	for j, o := range ops {
+		if o[0] == 3 {
+			continue
+		}
+		got := out.List[1].List[j].String()
+		if got == "'scribbled" { // the caller itself wrote into this one
+			continue
+		}
+		if want := fresh(o); got != want {
+			c.Fail(kind, in, "hasher-alias", fmt.Sprintf("%s: the result of request %d (op %d on cell %d) was right when returned; after the later requests the caller holds %s instead of %s (results alias each other or the hasher's state)", what, j, o[0], o[1], trunc(got, 80), trunc(want, 80)))
+			return
+		}
 	}
 }
 
@@ -247,7 +319,13 @@ func c02RunHistory(c *Ctx, dag []Node, ops [][2]int, class string) {
 		if r.Chance(25) && len(dag) < 1200 {
 			gops = append(gops, [2]int{2, o[1]})
 		}
+		if r.Chance(15) {
+			gops = append(gops, [2]int{4 + r.Intn(2), o[1]}) // Cell.Hash / Cell.HashString in between
+		}
 		gops = append(gops, o)
+		if r.Chance(25) { // the caller writes into a result it holds
+			gops = append(gops, [2]int{3, r.Intn(len(gops))})
+		}
 	}
 	src := r.Intn(2)
 	gin := sx.L(dagSx(dag), sx.Nat(src), opsSx(gops))
